@@ -516,6 +516,13 @@ type Remote struct {
 	Panic       func(ctx context.Context, msg string) error
 	BadErr      func(ctx context.Context, kind int) error
 	BadErrVal   func(ctx context.Context, kind int) (int, error)
+	KindErr     func(ctx context.Context, kind int) (int, error)
+	KindErrOnly func(ctx context.Context, kind int) error
+	KindClosure func(ctx context.Context, kind int, cb func(ctx context.Context, kind int) (int, error), cbe func(ctx context.Context, kind int) error) (string, error)
+	RetSlice    func(ctx context.Context, kind int) ([]string, error)
+	RetMap      func(ctx context.Context, kind int) (map[string]int, error)
+	RetBytes    func(ctx context.Context, kind int) ([]byte, error)
+	RetNested   func(ctx context.Context, kind int) ([][]int, error)
 	ClosureFloats func(ctx context.Context, row int, cb func(ctx context.Context, a float32, b []float32, c int8, d []uint16, e []int32) (float32, error)) (string, error)
 	ClosureTypes  func(ctx context.Context, row int, cb func(ctx context.Context, a int, b float64, c bool, d string, e []int, f []string, g uint8, h []float64, i []bool, j int64) (string, error)) (string, error)
 	ClosureResult func(ctx context.Context, want int, cb func(ctx context.Context, k int) ([]int, error)) (string, error)
